@@ -22,7 +22,7 @@ inductive Value where
   | str (s : List Char)
   | blank
   | err (e : Err)
-  | date (ms : Int)            -- naive datetime, milliseconds since 1900-01-01T00:00
+  | date (us : Int)            -- naive datetime, MICROseconds since 1900-01-01T00:00
   | arr (xs : List Value)
   | other (tag : String)       -- any other host object
   deriving Repr, Inhabited
@@ -101,7 +101,7 @@ partial def Value.toSexp : Value → Sexp
   | .str s => .list [.atom "s", .atom (encodeChars s)]
   | .blank => .atom "nil"
   | .err e => .list [.atom "e", .atom e.tag]
-  | .date ms => .list [.atom "d", .atom (toString ms)]
+  | .date us => .list [.atom "d", .atom (toString us)]
   | .arr xs => .list (.atom "a" :: xs.map Value.toSexp)
   | .other t => .list [.atom "o", .atom t]
 
